@@ -5,7 +5,7 @@
 EXTENDS Digest, TLC
 CONSTANTS MaxCh, MaxNow
 
-Addrs == {1, 2}
+Addrs == {1, 2, 3}        \* 3 = "no address" (None, "", b"" are spellings of it)
 NonceClasses == {"G", "Tsent", "Tboth", "other", "missing"}
 OpaqueClasses == {"G", "other", "Tmac", "TkeyN", "TkeyA", "TkeyT", "forged", "Mjunk"} \cup OpShapes
 AllG == [f \in RestFields |-> "G"]
